@@ -712,7 +712,7 @@ def _run_child(inp, outp):
     total_wall = CASE_WALL_LIMIT + 600
     p = subprocess.Popen(["timeout", "-k", "5", str(total_wall * 4), C.PY, "-m", "harness.c17", "--e2e-worker", inp, outp],
                          cwd=C.VERIF, env=env, stdout=subprocess.DEVNULL, stderr=subprocess.DEVNULL)
-    cur, cur_t0, cur_cpu0 = None, time.time(), 0.0
+    cur, cur_t0, cur_cpu0 = None, time.time(), None
     why = None
     while True:
         try:
@@ -731,12 +731,16 @@ def _run_child(inp, outp):
             kids = []
         cpu = _cpu_seconds(kids[0]) if kids else None
         if k != cur:
-            cur, cur_t0, cur_cpu0 = k, time.time(), cpu or 0.0
+            cur, cur_t0, cur_cpu0 = k, time.time(), cpu
             continue
+        if cur_cpu0 is None:
+            # the /proc read failed when the conversation changed: take the baseline at the first
+            # successful reading (a baseline of 0 would charge the whole batch to this conversation)
+            cur_cpu0 = cpu
         if cur is None or cur < 0:
             if time.time() - cur_t0 > total_wall:
                 why = "startup"
-        elif cpu is not None and cpu - cur_cpu0 > CASE_CPU_LIMIT:
+        elif cpu is not None and cur_cpu0 is not None and cpu - cur_cpu0 > CASE_CPU_LIMIT:
             why = f"cpu>{CASE_CPU_LIMIT}s"
         elif time.time() - cur_t0 > CASE_WALL_LIMIT:
             why = f"wall>{CASE_WALL_LIMIT}s"
@@ -749,8 +753,10 @@ def _run_child(inp, outp):
     return p.returncode, why
 
 
-def _run_batch(idx, cases):
-    """Run one batch in a child; a case that hangs/crashes the child is reported and skipped."""
+def _run_batch(idx, cases, confirming=False):
+    """Run one batch in a child; a case that hangs/crashes the child is reported and skipped.
+    A hang verdict (watchdog kill) is only reported when it reproduces with the conversation run
+    alone in a fresh child: the conversations are deterministic, the watchdog's timing is not."""
     os.makedirs(WORK, exist_ok=True)
     results = [None] * len(cases)
     todo = list(range(len(cases)))
@@ -782,8 +788,11 @@ def _run_batch(idx, cases):
         k = cur["current"]
         for i, r in zip(todo[:k], cur.get("done", [])):
             results[i] = r
-        results[todo[k]] = {"replies": [], "calls": [],
-                            "fail": {"kind": "hang" if why else "crash", "rc": rc, "why": why}}
+        if why and not confirming:
+            results[todo[k]] = _run_batch(f"{idx}c{attempt}", [cases[todo[k]]], confirming=True)[0]
+        else:
+            results[todo[k]] = {"replies": [], "calls": [],
+                                "fail": {"kind": "hang" if why else "crash", "rc": rc, "why": why}}
         todo = todo[k + 1:]
     return results
 
